@@ -116,6 +116,13 @@ Ltac all_dims :=
       pose proof Hx as Hx'; pose proof Hy as Hy'; unfold xdims, ydims in Hx', Hy'; simpl in Hx', Hy';
       cases_in Hx'; cases_in Hy'
   end.
+(* the same for statements that only mention the dimensions of x (the fwhm methods) *)
+Ltac x_dims :=
+  match goal with
+  | Hx : In ?dx xdims |- _ =>
+      let Hx' := fresh in
+      pose proof Hx as Hx'; unfold xdims in Hx'; simpl in Hx'; cases_in Hx'
+  end.
 Ltac all_num :=
   repeat match goal with
          | H : is_num ?d = true |- _ => destruct d; try discriminate H; clear H
@@ -204,21 +211,21 @@ Lemma gaussian_fwhm_closed p A sA mu s sx :
   sx > 0 ->
   is_qty h mn (GaussianModel_fwhm O (selfp p) (pdictp p A sA mu s sx)) (fwhm_gauss (s * sx)) sx dmx DF64.
 Proof using Hdmx Hdmy.
-  intros Hsx. unfold GaussianModel_fwhm, selfp, pdictp, plist; all_dims; prefix_step; final;
+  intros Hsx. unfold GaussianModel_fwhm, selfp, pdictp, plist; x_dims; prefix_step; final;
     (qty_intro; [close_unit | unfold fwhm_gauss; close_val]).
 Qed.
 Lemma lorentzian_fwhm_closed p A sA mu s sx :
   sx > 0 ->
   is_qty h mn (LorentzianModel_fwhm O (selfp p) (pdictp p A sA mu s sx)) (fwhm_lorentz (s * sx)) sx dmx DF64.
 Proof using Hdmx Hdmy.
-  intros Hsx. unfold LorentzianModel_fwhm, selfp, pdictp, plist; all_dims; prefix_step; final;
+  intros Hsx. unfold LorentzianModel_fwhm, selfp, pdictp, plist; x_dims; prefix_step; final;
     (qty_intro; [close_unit | unfold fwhm_lorentz; close_val]).
 Qed.
 Lemma pvoigt_fwhm_closed p A sA mu s sx f :
   sx > 0 ->
   is_qty h mn (PseudoVoigtModel_fwhm O (selfp p) (pvdictp p A sA mu s sx f)) (fwhm_lorentz (s * sx)) sx dmx DF64.
 Proof using Hdmx Hdmy.
-  intros Hsx. unfold PseudoVoigtModel_fwhm, selfp, pvdictp, pvlist, plist; simpl app; all_dims; prefix_step; final;
+  intros Hsx. unfold PseudoVoigtModel_fwhm, selfp, pvdictp, pvlist, plist; simpl app; x_dims; prefix_step; final;
     (qty_intro; [close_unit | unfold fwhm_lorentz; close_val]).
 Qed.
 
